@@ -1,0 +1,88 @@
+//go:build verif
+
+// Machine-checked contracts for package interpreter (comment-only; read by /verif/bin/bornovc).
+package interpreter
+
+// ---- coercions -------------------------------------------------------
+
+//@ func toNumber [C02,C10,C17]
+//@ ensures [num] isNum(value) ==> result1 == nil && result0 == num(value)
+//@ ensures [str] isStr(value) ==> ((result1 == nil) == ext.parsefloat.ok(trStr(str(value)))) && (result1 == nil ==> result0 == ext.parsefloat.val(trStr(str(value))))
+//@ ensures [other] !isNum(value) && !isStr(value) && !isI64(value) ==> result1 != nil
+//@ ensures [err] result1 == nil || isErr(result1)
+
+//@ func toInt64 [C02,C11]
+//@ ensures [accept] isNum(value) ==> ((result1 == nil) == intOK(num(value)))
+//@ ensures [value] isNum(value) && result1 == nil ==> result0 == intOf(num(value))
+//@ ensures [other] !isNum(value) && !isStr(value) && !isI64(value) ==> result1 != nil
+//@ ensures [err] result1 == nil || isErr(result1)
+
+//@ func isTruthy [C14,C16]
+//@ requires [canon] canon(value)
+//@ ensures [spec] result == truthySpec(value)
+
+//@ func isEqual [C02,C16]
+//@ requires [canon] canon(a) && canon(b)
+//@ ensures [spec] eqOK(a, b, result)
+
+//@ func stringifyOperand [C02,C15]
+//@ ensures [num] isNum(value) ==> result1 == nil && result0 == numText(num(value))
+//@ ensures [str] isStr(value) ==> result1 == nil && result0 == str(value)
+//@ ensures [other] !isNum(value) && !isStr(value) && !isI64(value) && !isRunes(value) ==> result1 != nil
+
+// ---- operators -------------------------------------------------------
+
+//@ func handleAddition [C02,C15,C16]
+//@ requires [canon] canon(left) && canon(right)
+//@ requires [live] !utils.HadRuntimeError
+//@ ensures [spec] plusOK(left, right, result, utils.HadRuntimeError)
+//@ ensures [noval] utils.HadRuntimeError ==> result == nil
+//@ ensures [errs] errProto(false, utils.HadRuntimeError, old(stderrN), stderrN, stderr, operator.Line)
+
+//@ func handleArithmetic [C02]
+//@ requires [canon] canon(left) && canon(right)
+//@ requires [live] !utils.HadRuntimeError
+//@ requires [op] operator.Type == token.MINUS || operator.Type == token.STAR || operator.Type == token.SLASH
+//@ ensures [spec] binOK(operator.Type, left, right, result, utils.HadRuntimeError)
+//@ ensures [noval] utils.HadRuntimeError ==> result == nil
+//@ ensures [canon] canon(result)
+//@ ensures [errs] errProto(false, utils.HadRuntimeError, old(stderrN), stderrN, stderr, operator.Line)
+
+//@ func handleEquality [C02]
+//@ requires [canon] canon(left) && canon(right)
+//@ requires [live] !utils.HadRuntimeError
+//@ requires [op] operator.Type == token.EQUAL_EQUAL || operator.Type == token.BANG_EQUAL
+//@ ensures [spec] binOK(operator.Type, left, right, result, false)
+//@ ensures [quiet] !utils.HadRuntimeError && stderrN == old(stderrN)
+
+//@ func handleComparison [C02]
+//@ requires [canon] canon(left) && canon(right)
+//@ requires [live] !utils.HadRuntimeError
+//@ requires [op] operator.Type == token.GREATER || operator.Type == token.GREATER_EQUAL || operator.Type == token.LESS || operator.Type == token.LESS_EQUAL
+//@ ensures [spec] binOK(operator.Type, left, right, result, utils.HadRuntimeError)
+//@ ensures [noval] utils.HadRuntimeError ==> result == nil
+//@ ensures [canon] canon(result)
+//@ ensures [errs] errProto(false, utils.HadRuntimeError, old(stderrN), stderrN, stderr, operator.Line)
+
+//@ func handleBitwise [C02,C16]
+//@ requires [canon] canon(left) && canon(right)
+//@ requires [live] !utils.HadRuntimeError
+//@ requires [op] operator.Type == token.AND || operator.Type == token.OR || operator.Type == token.XOR || operator.Type == token.LEFT_SHIFT || operator.Type == token.RIGHT_SHIFT
+//@ ensures [spec] binOK(operator.Type, left, right, result, utils.HadRuntimeError)
+//@ ensures [noval] utils.HadRuntimeError ==> result == nil
+//@ ensures [canon] canon(result)
+//@ ensures [errs] errProto(false, utils.HadRuntimeError, old(stderrN), stderrN, stderr, operator.Line)
+
+//@ func evaluateBinary [C02,C16,C06]
+//@ requires [canon] canon(left) && canon(right)
+//@ ensures [spec] !old(utils.HadRuntimeError) ==> binOK(operator.Type, left, right, result, utils.HadRuntimeError)
+//@ ensures [noval] utils.HadRuntimeError ==> result == nil
+//@ ensures [canon] canon(result)
+//@ ensures [errs] errProto(old(utils.HadRuntimeError), utils.HadRuntimeError, old(stderrN), stderrN, stderr, operator.Line)
+
+//@ func evaluateUnary [C02,C16,C06,C14]
+//@ requires [canon] canon(right)
+//@ ensures [spec] !old(utils.HadRuntimeError) ==> unOK(operator.Type, right, result, utils.HadRuntimeError)
+//@ ensures [noval] utils.HadRuntimeError ==> result == nil
+//@ ensures [canon] canon(result)
+//@ ensures [errs] errProto(old(utils.HadRuntimeError), utils.HadRuntimeError, old(stderrN), stderrN, stderr, operator.Line)
